@@ -54,7 +54,11 @@ if note: meta["note"] = note
 old = os.path.join(dst, "meta.json")
 if os.path.exists(old):
     try:
-        prev = json.load(open(old)); meta["history"] = prev.get("history", []) + [{k: prev.get(k) for k in ("repo_head", "detected", "check_summary", "note") if k in prev}]
+        prev = json.load(open(old))
+        if skip_suite and "suite_pass_after" in prev:   # suite comparison is carried over from the run that made it
+            for k in ("suite_pass_before", "suite_pass_after", "suite_newly_failing"): meta[k] = prev.get(k)
+            meta["suite_compared_at_head"] = prev.get("suite_compared_at_head", prev.get("repo_head"))
+        meta["history"] = prev.get("history", []) + [{k: prev.get(k) for k in ("repo_head", "detected", "check_summary", "note") if k in prev}]
     except Exception: pass
 rc0, o0 = demo()
 meta["demo_clean_exit"], meta["demo_clean_tail"] = rc0, o0
